@@ -75,6 +75,141 @@ pub fn rich_document(rng: &mut Rng, per_object: usize, with_errors: bool) -> (Ob
     (root, d.ledger)
 }
 
+const ROLES: &[&str] = &[
+    "window", "windowText", "base", "alternateBase", "toolTipBase", "toolTipText", "text", "button", "buttonText", "brightText",
+    "light", "midlight", "dark", "mid", "shadow", "highlight", "highlightedText", "link", "linkVisited",
+];
+const COLORS: &[&str] = &["\"black\"", "\"#48c\"", "\"gray\"", "\"#80ff0000\"", "\"white\"", "\"darkslategrey\"", "\"#123456\"", "\"transparent\""];
+
+fn subset<'a>(rng: &mut Rng, xs: &[&'a str], min: usize, max: usize) -> Vec<&'a str> {
+    let mut v: Vec<&str> = xs.to_vec();
+    rng.shuffle(&mut v);
+    let n = (min + rng.below(max - min + 1)).min(v.len());
+    v.truncate(n);
+    v
+}
+
+/// Documents in which SEVERAL entries of one unordered container interact: the constructs where a dependence on the
+/// iteration order of a HashMap would show (defaults merged into groups, one diagnostic per entry, several members of a
+/// group, several handlers in a map, several attached properties, many anonymous objects of one class).
+pub fn multiplicity_document(rng: &mut Rng) -> (String, &'static str) {
+    let mut s = String::from("import qmluic.QtWidgets\n\nQWidget {\n    id: root\n    QCheckBox { id: c1 }\n    QCheckBox { id: c2 }\n    QSpinBox { id: sp }\n    QLineEdit { id: ed }\n");
+    let which = rng.below(7);
+    let label = match which {
+        0 => {
+            // palette: default roles on the palette itself, colour groups overriding some of them and setting others
+            s.push_str("    QLabel {\n        id: pal\n");
+            for r in subset(rng, ROLES, 1, 6) {
+                s.push_str(&format!("        palette.{r}: {}\n", rng.pick(COLORS)));
+            }
+            for g in subset(rng, &["active", "inactive", "disabled"], 1, 3) {
+                for r in subset(rng, ROLES, 1, 5) {
+                    s.push_str(&format!("        palette.{g}.{r}: {}\n", rng.pick(COLORS)));
+                }
+            }
+            s.push_str("    }\n");
+            "palette"
+        }
+        1 => {
+            // several handlers inside nested object / gadget / attached maps (each is an error of its own)
+            s.push_str("    QTableView {\n        id: tv\n");
+            for (m, sigs) in [("horizontalHeader", &["SectionClicked", "SectionDoubleClicked", "SectionPressed", "SectionEntered", "GeometriesChanged"][..]), ("verticalHeader", &["SectionClicked", "SectionResized", "SectionMoved"][..])] {
+                if rng.chance(2, 3) {
+                    for sig in subset(rng, sigs, 2, sigs.len()) {
+                        s.push_str(&format!("        {m}.on{sig}: {{}}\n"));
+                    }
+                    if rng.chance(1, 2) {
+                        s.push_str(&format!("        {m}.visible: c1.checked\n        {m}.highlightSections: c2.checked\n"));
+                    }
+                }
+            }
+            s.push_str("    }\n    QVBoxLayout {\n        QLabel { QLayout.onFoo: {}; QLayout.onBar: {}; QLayout.alignment: Qt.AlignLeft }\n        QLabel { font.onChanged: {}; font.onBold: {}; font.bold: true }\n    }\n");
+            "handlers-in-maps"
+        }
+        2 => {
+            // many faulty bindings in one object: one diagnostic each
+            s.push_str("    QLabel {\n        id: many\n");
+            for k in 0..(3 + rng.below(6)) {
+                match rng.below(5) {
+                    0 => s.push_str(&format!("        nosuch{k}: {k}\n")),
+                    1 => s.push_str(&format!("        {}: {k}\n", rng.pick(&["text", "toolTip", "statusTip", "whatsThis", "accessibleName", "styleSheet", "windowTitle"]))),
+                    2 => s.push_str(&format!("        {}: \"x{k}\"\n", rng.pick(&["wordWrap", "enabled", "indent", "margin", "minimumWidth", "maximumHeight", "openExternalLinks"]))),
+                    3 => s.push_str(&format!("        font.nosuch{k}: 1\n")),
+                    _ => s.push_str(&format!("        on{}: {{}}\n", rng.pick(&["NoSuchSignal", "Foo", "BarChanged"]))),
+                }
+            }
+            s.push_str("    }\n");
+            "many-faults"
+        }
+        3 => {
+            // several dynamic and constant members of gadget maps, several dynamic bindings with shared sources
+            s.push_str("    QLabel {\n        id: dyn\n");
+            let members = [("font.bold", "c1.checked"), ("font.italic", "c2.checked"), ("font.underline", "c1.checked && c2.checked"), ("font.pointSize", "sp.value"), ("font.family", "ed.text"), ("font.kerning", "!c1.checked"), ("sizePolicy.horizontalStretch", "sp.value"), ("sizePolicy.verticalStretch", "2")];
+            for (m, v) in subset_pairs(rng, &members, 2, 8) {
+                s.push_str(&format!("        {m}: {v}\n"));
+            }
+            for (p, v) in subset_pairs(rng, &[("text", "ed.text"), ("toolTip", "ed.text + ed.text"), ("enabled", "c1.checked"), ("visible", "c2.checked || c1.checked"), ("indent", "sp.value"), ("wordWrap", "c1.checked"), ("windowTitle", "qsTr(\"%1\").arg(sp.value)")], 2, 6) {
+                s.push_str(&format!("        {p}: {v}\n"));
+            }
+            s.push_str("    }\n");
+            "gadget-members"
+        }
+        4 => {
+            // grid layout children with several attached properties, some out of range or conflicting
+            s.push_str("    QGridLayout {\n        id: grid\n");
+            for k in 0..(3 + rng.below(5)) {
+                s.push_str("        QLabel {");
+                for a in subset(rng, &["row", "column", "rowSpan", "columnSpan", "alignment", "rowStretch", "columnStretch", "rowMinimumHeight", "columnMinimumWidth"], 2, 6) {
+                    let v = match a {
+                        "alignment" => "Qt.AlignRight | Qt.AlignBottom".to_owned(),
+                        _ => format!("{}", if rng.chance(1, 8) { 70000 } else { rng.below(4) as i64 + k as i64 % 2 }),
+                    };
+                    s.push_str(&format!(" QLayout.{a}: {v};"));
+                }
+                s.push_str(" }\n");
+            }
+            s.push_str("    }\n");
+            "attached"
+        }
+        5 => {
+            // many anonymous objects of few classes, custom-looking ids, actions and menus: name generation and addaction order
+            s.push_str("    QMenuBar {\n        QMenu {\n");
+            for k in 0..(3 + rng.below(6)) {
+                match rng.below(4) {
+                    0 => s.push_str("            QAction { }\n"),
+                    1 => s.push_str("            QAction { separator: true }\n"),
+                    2 => s.push_str(&format!("            QAction {{ id: action{k}; text: \"a{k}\" }}\n")),
+                    _ => s.push_str("            QMenu { QAction { } }\n"),
+                }
+            }
+            s.push_str("        }\n    }\n");
+            for _ in 0..(2 + rng.below(5)) {
+                s.push_str(&format!("    {} {{ }}\n", rng.pick(&["QLabel", "QPushButton", "QLabel", "QWidget", "QLineEdit"])));
+            }
+            "anonymous-objects"
+        }
+        _ => {
+            // several item-model / string-list / brush / icon style values next to each other
+            s.push_str("    QComboBox {\n        id: combo\n        model: [\"a\", \"b\", qsTr(\"c\")]\n        currentIndex: sp.value\n    }\n    QListWidget { id: lw }\n    QLabel {\n        id: misc\n");
+            for r in subset(rng, ROLES, 2, 5) {
+                s.push_str(&format!("        palette.{r}: {}\n", rng.pick(COLORS)));
+            }
+            s.push_str("        geometry.x: 1\n        geometry.y: 2\n        geometry.width: 30\n        geometry.height: 40\n        minimumSize.width: 5\n        minimumSize.height: 6\n        cursor: Qt.WaitCursor\n    }\n");
+            "misc-values"
+        }
+    };
+    s.push_str("}\n");
+    (s, label)
+}
+
+fn subset_pairs<'a>(rng: &mut Rng, xs: &[(&'a str, &'a str)], min: usize, max: usize) -> Vec<(&'a str, &'a str)> {
+    let mut v: Vec<(&str, &str)> = xs.to_vec();
+    rng.shuffle(&mut v);
+    let n = (min + rng.below(max - min + 1)).min(v.len());
+    v.truncate(n);
+    v
+}
+
 impl Stream for C08 {
     fn generate(&self, seed: u64, thorough: bool) -> Vec<Case> {
         let mut cases = vec![];
@@ -90,6 +225,12 @@ impl Stream for C08 {
                 if with_errors { "with-errors".into() } else { "clean".to_string() },
             ];
             cases.push(Case { kind: "oracle", labels, request: node("determinism", vec![st(root.to_qml())]) });
+        }
+        let m = if thorough { 6_000 } else { 500 };
+        for k in 0..m {
+            let mut rng = Rng::fork(seed, "c08-mult", k as u64);
+            let (text, label) = multiplicity_document(&mut rng);
+            cases.push(Case { kind: "oracle", labels: vec!["multiplicity".into(), format!("mult:{label}")], request: node("determinism", vec![st(text)]) });
         }
         cases
     }
